@@ -224,5 +224,26 @@ Example C03_ex_generic_premises :
   end = true.
 Proof. vm_compute. reflexivity. Qed.
 
+(* ======================================================================================================
+   Item (b) of the "PARTIAL" note closed for the shipped parrots (Model/PresetOk.v, Proofs/PresetOkP.v / PresetOkS.v /
+   PresetOkC.v; reading guide at the end of Props/C02.v): the premises wf_specb / spec_fitsb of C03_generic follow from a
+   static predicate on the spec that holds for every table entry (C02_parrots_preset_ok, by computation over the
+   regenerated table) and is invariant under the shuffle. What remains partial is item (c) only (arrange vs C03_shuffle).
+   ====================================================================================================== *)
+From UV Require Model.PresetOk Proofs.PresetOkC.
+
+(* every shipped parrot, every rearrangement the shuffle can produce, every Config with an SNI name of at most 255 bytes and
+   OmitEmptyPsk, every randomness for which ApplyPreset returns: the hello is built, the strict parser reads the BYTES
+   back, and the parsed hello matches the (rearranged) spec *)
+Theorem C03_parrots_full : forall p swaps exts', In p Parrots.all ->
+  shuffle fixedb swaps (sp_exts (p_spec p)) = Ok exts' ->
+  forall c fr h es, PresetOkC.parrot_class c ->
+  apply_preset (with_exts (p_spec p) exts') c fr = Ok (h, es) ->
+  exists raw a, build (with_exts (p_spec p) exts') c fr = Ok raw /\ parse_hello raw = Some a
+    /\ ast_matches_specb a {| p_name := p_name p; p_spec := with_exts (p_spec p) exts'; p_shuffles := false |} c = true.
+Proof. exact PresetOkC.parrot_matches. Qed.
+Print Assumptions C03_parrots_full.
+
 (* imported last, for the driver's closure scan only (lib/vcheck.py follows "Require Import" lines); nothing follows *)
 From UV Require Import Proofs.ComposeP Proofs.ComposeC03.
+From UV Require Import Model.PresetOk Proofs.PresetOkP Proofs.PresetOkS Proofs.PresetOkT Proofs.PresetOkC.
